@@ -19,6 +19,22 @@ Reading rules (anything else fails loudly = broken obligation):
   calculateMessageSizes the loop over the neighbours is ignored and the group is decided by the counter named in the
   innermost loop header (`publish` per index, `pairs` per pair), outside those loops = header.
 A consistent reordering of fields, renaming of variables or reformatting gives the same or an equally consistent file.
+
+Round four - three more parts of the source are read as data (all emitted into the same Gen/C13.lean):
+* `syncPhases` / `packLoop` / `recvLoop`: the statement order of `sync(numberer, useFixedOrder)`: every statement
+  that calls one of the phase functions (calculateMessageSizes, beginResize, packAndSend, recvAndUnpack, MPI_Waitall,
+  endResize, repairLocalIndexPointers), clears one of the per-sync members or assigns the sequence numbers becomes an
+  event (phase, number of the innermost enclosing loop or 0, inside an if/else body?) in source order, plus the
+  normalised headers of the two loops that call packAndSend / recvAndUnpack (start, comparison, bound, step).
+  Props/C13.lean proves `sync_phases_sound` about the generated list: the order constraints the protocol model rests on.
+* `insertConds`: the five branch conditions of `insertIntoRemoteIndexList` (advance while key < new key; insert when at
+  the end or key != new key; scan the run while key == new key; found when the remote attribute is equal; insert when
+  not found).  The skeleton (while / if-insert-return / flag / for-if-flag-break / if-insert) is checked here, operands
+  may be written either way round (`a < b` or `b > a`), `!x.isNotAtEnd()` = `x.isAtEnd()`; another shape is an error.
+  Props/C13.lean proves that the model's `insertEntry` *is* the skeleton with the generated conditions.
+* `sizeIncr`: what `calculateMessageSizes` adds to `infoSend_[holder].publish` / `.pairs` for every holder of an index
+  (1 and the number of holders).  Props/C13.lean proves that with these increments the counts are those of the message
+  `packAndSend` writes (`sizes_match_messages`), hence the reserved buffer fits the real message (`wire_message_fits`).
 """
 import os
 import re
@@ -186,6 +202,394 @@ def _layout(body, fn, by_counter):
     return groups
 
 
+
+# ---------------------------------------------------------------------------------------------------------------------
+# round four: a structural walk that keeps the context (enclosing loops / if bodies) of every simple statement
+# ---------------------------------------------------------------------------------------------------------------------
+
+class _Walk:
+    """items: (kind, text, ctx) with kind in stmt/for/while/if (text of a header includes its parentheses);
+    ctx = tuple of (kind, header, id) of the enclosing for/while/if/else constructs (outermost first)"""
+
+    def __init__(self, body):
+        self.items = []
+        self.n = 0
+        self._stmt(body, 0, ())
+
+    def _stmt(self, s, i, ctx):
+        i = _skip_ws(s, i)
+        if i >= len(s):
+            return i
+        if s[i] == "{":
+            j = _match(s, i, "{", "}")
+            k = i + 1
+            while True:
+                k = _skip_ws(s, k)
+                if k >= j - 1:
+                    break
+                k = self._stmt(s, k, ctx)
+            return j
+        m = re.match(r"(for|while|if|else|do|switch|goto|try)\b", s[i:])
+        if m:
+            kw = m.group(1)
+            k = _skip_ws(s, i + len(kw))
+            if kw in ("do", "switch", "goto", "try"):
+                raise TranslateError("%s is outside the translator's grammar" % kw)
+            if kw == "else":
+                self.n += 1
+                return self._stmt(s, k, ctx + (("else", "", self.n),))
+            if s[k] != "(":
+                raise TranslateError("expected ( after %s" % kw)
+            e = _match(s, k, "(", ")")
+            header = s[k:e]
+            self.n += 1
+            me = (kw, header, self.n)
+            self.items.append((kw, header, ctx, self.n))
+            e2 = self._stmt(s, e, ctx + (me,))
+            if kw == "if":
+                k2 = _skip_ws(s, e2)
+                if s[k2:k2 + 4] == "else" and not (s[k2 + 4:k2 + 5].isalnum() or s[k2 + 4:k2 + 5] == "_"):
+                    return self._stmt(s, k2, ctx)
+            return e2
+        depth, k = 0, i
+        while k < len(s):
+            if s[k] in "({[":
+                depth += 1
+            elif s[k] in ")}]":
+                depth -= 1
+            elif s[k] == ";" and depth == 0:
+                break
+            k += 1
+        text = s[i:k].strip()
+        if text:
+            self.items.append(("stmt", text, ctx, 0))
+        return k + 1
+
+
+def _is_log(text):
+    return re.match(r"(Dune\s*::\s*)?(dverb|dvverb|dinfo|dwarn)\b", text) is not None
+
+
+def _nows(t):
+    return re.sub(r"\s+", "", t)
+
+
+def _loops(ctx):
+    return [c for c in ctx if c[0] in ("for", "while")]
+
+
+def _guards(ctx):
+    return [c for c in ctx if c[0] in ("if", "else")]
+
+
+# --- sync(): statement order -------------------------------------------------------------------------------------------
+
+_PHASES = [
+    ("markPending", r"\bpendingSources_\s*\.\s*insert\s*\("),
+    ("sizes", r"\bcalculateMessageSizes\s*\("),
+    ("beginResize", r"\bindexSet_\s*\.\s*beginResize\s*\("),
+    ("pack", r"\bpackAndSend\s*\("),
+    ("recv", r"\brecvAndUnpack\s*\("),
+    ("waitall", r"\bMPI_Waitall\s*\("),
+    ("clearIterators", r"\biteratorsMap_\s*\.\s*clear\s*\("),
+    ("endResize", r"\bindexSet_\s*\.\s*endResize\s*\("),
+    ("repair", r"\brepairLocalIndexPointers\s*\("),
+    ("clearOld", r"\boldMap_\s*\.\s*clear\s*\("),
+    ("clearAdded", r"\baddedIndices_\s*\.\s*clear\s*\("),
+    ("clearGlobal", r"\bglobalMap_\s*\.\s*clear\s*\("),
+    ("clearInfo", r"\binfoSend_\s*\.\s*clear\s*\("),
+    ("clearPending", r"\bpendingSources_\s*\.\s*clear\s*\("),
+    ("seqSource", r"\bsourceSeqNo_\s*=(?!=)"),
+    ("seqDest", r"\bdestSeqNo_\s*=(?!=)"),
+]
+
+
+def _for_header(header, body_text):
+    """normalise `(T i = A; i < B; ++i)`: (starts at 0, comparison, bound is the number of neighbours, step is +1)"""
+    parts = header[1:-1].split(";")
+    if len(parts) != 3:
+        raise TranslateError("loop header outside the grammar: %s" % header)
+    init, cond, step = [p.strip() for p in parts]
+    m = re.match(r"(?:[\w:]+(?:\s*<[^;]*>)?\s+)?(\w+)\s*=\s*(.+)$", init)
+    if not m:
+        raise TranslateError("loop initialisation outside the grammar: %s" % init)
+    var, start = m.group(1), _nows(m.group(2))
+    if not re.fullmatch(r"\d+[uUlL]*", start):
+        raise TranslateError("loop start is not a literal: %s" % init)
+    c = _nows(cond)
+    m = re.fullmatch(r"(\w+)(<=|>=|!=|<|>)(\w+)", c)
+    if not m:
+        raise TranslateError("loop condition outside the grammar: %s" % cond)
+    a, op, b = m.groups()
+    if b == var:
+        a, b = b, a
+        op = {"<": ">", ">": "<", "<=": ">=", ">=": "<=", "!=": "!="}[op]
+    if a != var:
+        raise TranslateError("loop condition does not test the loop variable: %s" % cond)
+    cmp_ = {"<": "lt", "!=": "lt", "<=": "le", ">": "gt", ">=": "ge"}[op]  # i != n counts up to n like i < n
+    st = _nows(step)
+    stepinc = st in ("++" + var, var + "++", var + "+=1")
+    bound_ok = re.search(r"\b%s\s*=\s*remoteIndices_\s*\.\s*neighbours\s*\(\s*\)" % re.escape(b), body_text) is not None
+    # the bound must not be assigned a second time
+    if len(re.findall(r"(?<![\w.])%s\s*(?:[-+*/]?=(?!=)|\+\+|--)" % re.escape(b), body_text)) + \
+            len(re.findall(r"(?:\+\+|--)\s*%s\b" % re.escape(b), body_text)) != 1:
+        bound_ok = False
+    return var, "⟨%d, .%s, %s, %s⟩" % (int(re.match(r"\d+", start).group(0)), cmp_, "true" if bound_ok else "false",
+                                      "true" if stepinc else "false")
+
+
+def _sync_phases(src):
+    body = _body(src, r"void\s+IndicesSyncer<T>::sync\s*\(\s*T1\s*&")
+    w = _Walk(body)
+    loop_no = {}
+    evs = []
+    hdr = {}
+    for (kind, text, ctx, ident) in w.items:
+        if kind == "stmt" and _is_log(text):
+            continue
+        here = ctx + (((kind, text, ident),) if kind in ("for", "while") else ())
+        for (name, rx) in _PHASES:
+            for _ in re.finditer(rx, text):
+                lp = _loops(here)
+                num = 0
+                if lp:
+                    num = loop_no.setdefault(lp[-1][2], len(loop_no) + 1)
+                guarded = bool(_guards(ctx))
+                if name in ("seqSource", "seqDest") and not re.search(r"=\s*indexSet_\s*\.\s*seqNo\s*\(\s*\)\s*$", text):
+                    raise TranslateError("sequence number assigned from an expression the translator does not know: %s" % text)
+                if name in ("pack", "recv"):
+                    if len(lp) != 1 or lp[-1][0] != "for":
+                        raise TranslateError("%s is not called from exactly one for loop" % name)
+                    var, h = _for_header(lp[-1][1], body)
+                    a = _args(text[text.index("(") + 1:text.rindex(")")])
+                    which = a[0] if name == "pack" else a[1]
+                    if _nows(which) != "oldNeighbours[%s]" % var:
+                        raise TranslateError("%s: the neighbour is not oldNeighbours[%s]: %s" % (name, var, text))
+                    hdr[name] = h
+                evs.append((name, num, guarded))
+    # order inside one statement follows _PHASES, which is irrelevant except for the chained sequence number assignment
+    for need in ("pack", "recv"):
+        if need not in hdr:
+            hdr[need] = "⟨0, .lt, false, false⟩"
+    return evs, hdr
+
+
+# --- insertIntoRemoteIndexList(): branch conditions ------------------------------------------------------------------
+
+_FLIP = {"<": ">", ">": "<", "<=": ">=", ">=": "<=", "==": "==", "!=": "!="}
+_CMPNAME = {"<": "lt", "<=": "le", ">": "gt", ">=": "ge", "==": "eq", "!=": "ne"}
+
+
+def _split_top(text, sep):
+    out, depth, cur, i = [], 0, "", 0
+    while i < len(text):
+        ch = text[i]
+        if ch in "([":
+            depth += 1
+        elif ch in ")]":
+            depth -= 1
+        if depth == 0 and text.startswith(sep, i):
+            out.append(cur)
+            cur = ""
+            i += len(sep)
+            continue
+        cur += ch
+        i += 1
+    out.append(cur)
+    return [o.strip() for o in out]
+
+
+def _end_test(t):
+    """(iterator name, True when the test says `at the end`)"""
+    t = _nows(t)
+    neg = False
+    while t.startswith("!"):
+        neg = not neg
+        t = t[1:]
+    if t.startswith("(") and t.endswith(")") and _match(t, 0, "(", ")") == len(t):
+        return _end_test(("!" if neg else "") + t[1:-1])
+    m = re.fullmatch(r"(\w+)\.(isAtEnd|isNotAtEnd)\(\)", t)
+    if not m:
+        raise TranslateError("end test outside the grammar: %s" % t)
+    at_end = (m.group(2) == "isAtEnd") != neg
+    return m.group(1), at_end
+
+
+def _comparison(t, left_rx, right_rx):
+    """`L op R` or `R op L` -> (iterator name captured by left_rx, op as seen from L)"""
+    t = _nows(t)
+    while t.startswith("(") and t.endswith(")") and _match(t, 0, "(", ")") == len(t):
+        t = t[1:-1]
+    m = re.fullmatch(r"(.+?)(<=|>=|==|!=|<|>)(.+)", t)
+    if not m:
+        raise TranslateError("comparison outside the grammar: %s" % t)
+    a, op, b = m.groups()
+    ml, mr = re.fullmatch(left_rx, a), re.fullmatch(right_rx, b)
+    if ml and mr:
+        return ml.group(1), op
+    ml, mr = re.fullmatch(left_rx, b), re.fullmatch(right_rx, a)
+    if ml and mr:
+        return ml.group(1), _FLIP[op]
+    raise TranslateError("comparison outside the grammar: %s" % t)
+
+
+def _insert_conds(src):
+    m = re.search(r"void\s+IndicesSyncer<T>::insertIntoRemoteIndexList\s*\(", src)
+    if not m:
+        raise TranslateError("function not found: insertIntoRemoteIndexList")
+    pe = _match(src, m.end() - 1, "(", ")")
+    params = [re.findall(r"\w+", a)[-1] for a in _args(src[m.end():pe - 1])]
+    if len(params) != 3:
+        raise TranslateError("insertIntoRemoteIndexList: unexpected parameter list")
+    _, key, attr = params
+    body = _body(src, r"void\s+IndicesSyncer<T>::insertIntoRemoteIndexList\s*\(")
+    items = [it for it in _Walk(body).items if not (it[0] == "stmt" and _is_log(it[1]))]
+    key_rx = r"(\w+)\.globalIndexPair\(\)"
+    par_rx = re.escape(key)
+    att_l = r"(\w+)\.remoteIndex\(\)\.attribute\(\)"
+    att_r = r"(?:Attribute\()?%s\)?" % re.escape(attr)
+
+    def children(ident):
+        return [it for it in items if any(c[2] == ident for c in it[2])]
+
+    # 1. the advancing loop
+    whiles = [it for it in items if it[0] == "while" and not it[2]]
+    if len(whiles) != 1:
+        raise TranslateError("insertIntoRemoteIndexList: expected exactly one top-level while loop")
+    wh = whiles[0]
+    parts = _split_top(wh[1][1:-1], "&&")
+    if len(parts) != 2:
+        raise TranslateError("insertIntoRemoteIndexList: while condition outside the grammar")
+    it_name, at_end = _end_test(parts[0])
+    if at_end:
+        raise TranslateError("insertIntoRemoteIndexList: the loop must stop at the end of the list")
+    it2, op1 = _comparison(parts[1], key_rx, par_rx)
+    ch = children(wh[3])
+    if it2 != it_name or len(ch) != 1 or _nows(ch[0][1]) not in ("++" + it_name, it_name + "++"):
+        raise TranslateError("insertIntoRemoteIndexList: body of the advancing loop outside the grammar")
+    # top-level constructs after the loop
+    after = [it for it in items if items.index(it) > items.index(wh) and not it[2]]
+    after = [it for it in after if it not in ch]
+    kinds = [it[0] for it in after]
+    if kinds != ["if", "stmt", "for", "if"]:
+        raise TranslateError("insertIntoRemoteIndexList: statement sequence after the advancing loop is %s" % kinds)
+    if1, flagdecl, forl, if2 = after
+    # 2. insert when the key is not there
+    parts = _split_top(if1[1][1:-1], "||")
+    if len(parts) != 2:
+        raise TranslateError("insertIntoRemoteIndexList: first if outside the grammar")
+    n2, at_end = _end_test(parts[0])
+    it2, op2 = _comparison(parts[1], key_rx, par_rx)
+    ch = [c for c in children(if1[3])]
+    texts = [_nows(c[1]) for c in ch]
+    if n2 != it_name or it2 != it_name or not at_end or len(ch) != 2 or not texts[0].startswith(it_name + ".insert(") \
+            or texts[1] != "return" or any(c[0] != "stmt" for c in ch):
+        raise TranslateError("insertIntoRemoteIndexList: first if outside the grammar")
+    ins1 = texts[0]
+    # 3. the flag
+    m = re.fullmatch(r"bool(\w+)=false", _nows(flagdecl[1]))
+    if not m:
+        raise TranslateError("insertIntoRemoteIndexList: flag declaration outside the grammar")
+    flag = m.group(1)
+    # 4. scanning the run of equal keys
+    parts = forl[1][1:-1].split(";")
+    if len(parts) != 3:
+        raise TranslateError("insertIntoRemoteIndexList: for header outside the grammar")
+    m = re.fullmatch(r"Iterators(\w+)=(\w+)", _nows(parts[0]).replace("Iterators", "Iterators", 1)) or \
+        re.fullmatch(r"auto(\w+)=(\w+)", _nows(parts[0]))
+    if not m or m.group(2) != it_name:
+        raise TranslateError("insertIntoRemoteIndexList: the scan does not start at the cursor")
+    tmp = m.group(1)
+    cparts = _split_top(parts[1], "&&")
+    if len(cparts) != 2:
+        raise TranslateError("insertIntoRemoteIndexList: scan condition outside the grammar")
+    n3, at_end = _end_test(cparts[0])
+    it3, op3 = _comparison(cparts[1], key_rx, par_rx)
+    if n3 != tmp or it3 != tmp or at_end or _nows(parts[2]) not in ("++" + tmp, tmp + "++"):
+        raise TranslateError("insertIntoRemoteIndexList: scan condition outside the grammar")
+    ch = children(forl[3])
+    if len(ch) != 3 or ch[0][0] != "if" or [_nows(c[1]) for c in ch[1:]] != [flag + "=true", "break"]:
+        raise TranslateError("insertIntoRemoteIndexList: body of the scan outside the grammar")
+    it4, op4 = _comparison(ch[0][1][1:-1], att_l, att_r)
+    if it4 != tmp:
+        raise TranslateError("insertIntoRemoteIndexList: the scan tests another iterator")
+    # 5. insert unless found
+    c = _nows(if2[1][1:-1])
+    if c in ("!" + flag, flag + "==false", "false==" + flag, "!(" + flag + ")"):
+        unless = "true"
+    elif c in (flag, flag + "==true"):
+        unless = "false"
+    else:
+        raise TranslateError("insertIntoRemoteIndexList: last if outside the grammar")
+    ch = children(if2[3])
+    if len(ch) != 1 or _nows(ch[0][1]) != ins1:
+        raise TranslateError("insertIntoRemoteIndexList: the two insertions differ")
+    if not re.fullmatch(re.escape(it_name) + r"\.insert\(RemoteIndex\(Attribute\(" + re.escape(attr) + r"\)\)," + par_rx + r"\)", ins1):
+        raise TranslateError("insertIntoRemoteIndexList: inserted entry outside the grammar: %s" % ins1)
+    return "⟨.%s, .%s, .%s, .%s, %s⟩" % (_CMPNAME[op1], _CMPNAME[op2], _CMPNAME[op3], _CMPNAME[op4], unless)
+
+
+# --- calculateMessageSizes(): what is added to the counters per holder -----------------------------------------------
+
+def _size_incr(src):
+    body = _body(src, r"void\s+IndicesSyncer<T>::calculateMessageSizes\s*\(\s*\)")
+    items = [it for it in _Walk(body).items if not (it[0] == "stmt" and _is_log(it[1]))]
+    pub, pairs = [], []
+    for it in items:
+        if it[0] != "stmt":
+            continue
+        t = _nows(it[1])
+        if "infoSend_[" not in t:
+            continue
+        m = re.fullmatch(r"(\+\+)?\(?infoSend_\[(\w+)\.process\(\)\]\.(publish|pairs)\)?(\+\+|\+=(\w+))?", t)
+        if not m or bool(m.group(1)) == bool(m.group(4)):
+            raise TranslateError("calculateMessageSizes: statement on infoSend_ outside the grammar: %s" % it[1])
+        amount = m.group(5) if m.group(5) else "1"
+        (pub if m.group(3) == "publish" else pairs).append((amount, m.group(2), it[2]))
+    if len(pub) != 1 or len(pairs) != 1:
+        raise TranslateError("calculateMessageSizes: expected one update of publish and one of pairs")
+    (pa, pv, pctx), (qa, qv, qctx) = pub[0], pairs[0]
+    lp, lq = _loops(pctx), _loops(qctx)
+    if not lp or not lq or lp[-1][2] != lq[-1][2] or len(lp) != 2:
+        raise TranslateError("calculateMessageSizes: the counters are not updated in one loop over the holders")
+    holder_loop = lp[-1]
+    hh = _nows(holder_loop[1])
+    m = re.fullmatch(r"\(auto(\w+)=(\w+)\.begin\(\);(\w+)!=(\w+);\+\+(\w+)\)", hh)
+    if not m or not (m.group(1) == m.group(3) == m.group(5) == pv == qv):
+        raise TranslateError("calculateMessageSizes: loop over the holders outside the grammar: %s" % holder_loop[1])
+    coll, endv = m.group(2), m.group(4)
+    # guards between the index loop and the holder loop: only `count > 0`
+    counter = None
+
+    def amount(a):
+        nonlocal counter
+        if re.fullmatch(r"\d+", a):
+            return ".const %d" % int(a)
+        # a variable: must be `int a=0;` counted up once per holder in a loop with the same header
+        decl = [it for it in items if it[0] == "stmt" and re.fullmatch(r"int%s=0" % re.escape(a), _nows(it[1]).replace("int", "int", 1))]
+        incs = [it for it in items if it[0] == "stmt" and _nows(it[1]) in ("++" + a, a + "++", a + "+=1")]
+        others = [it for it in items if it[0] == "stmt" and re.search(r"(?<![\w.])%s(?:[-+*/]?=(?!=)|\+\+|--)" % re.escape(a), _nows(it[1]))
+                  and it not in incs and it not in decl]
+        if len(decl) != 1 or len(incs) != 1 or others:
+            raise TranslateError("calculateMessageSizes: %s is not a plain counter" % a)
+        il = _loops(incs[0][2])
+        if len(il) != 2 or _guards(incs[0][2]) or \
+                re.sub(r"\b%s\b" % re.escape(_nows(il[-1][1])[5:].split("=")[0]), "V", _nows(il[-1][1])) != \
+                re.sub(r"\b%s\b" % re.escape(pv), "V", hh) or il[0][2] != lp[0][2]:
+            raise TranslateError("calculateMessageSizes: %s does not count the holders" % a)
+        counter = a
+        return ".holders"
+
+    pub_l, pairs_l = amount(pa), amount(qa)
+    for g in _guards(pctx) + _guards(qctx):
+        c = _nows(g[1])
+        if g[0] != "if" or counter is None or c not in ("(%s>0)" % counter, "(%s!=0)" % counter, "(0<%s)" % counter, "(%s>=1)" % counter):
+            raise TranslateError("calculateMessageSizes: the counters are updated under a condition the translator does not know: %s" % g[1])
+    # the end iterator of the holder loop must be the collective iterator's end
+    if not re.search(r"\bauto\s+%s\s*=\s*%s\s*\.\s*end\s*\(\s*\)" % (re.escape(endv), re.escape(coll)), body):
+        raise TranslateError("calculateMessageSizes: end of the holder loop outside the grammar")
+    return "⟨%s, %s⟩" % (pub_l, pairs_l)
+
 def _lean(name, g):
     def lst(l):
         return "[" + ", ".join("." + t for t in l) + "]"
@@ -208,8 +612,19 @@ def translate(repo):
            "/-- what packAndSend writes (MPI_Pack calls) -/",
            _lean("packLayout", pack),
            "/-- what recvAndUnpack reads (MPI_Unpack calls) -/",
-           _lean("unpackLayout", unpack),
-           "end DV.C13.Gen", ""]
+           _lean("unpackLayout", unpack)]
+    evs, hdr = _sync_phases(src)
+    out += ["/-- the statement order of sync(numberer, useFixedOrder): (phase, number of the enclosing loop or 0, inside an if body) -/",
+            "def syncPhases : List SyncEv := [" + ", ".join("⟨.%s, %d, %s⟩" % (n, l, "true" if g else "false") for (n, l, g) in evs) + "]",
+            "/-- header of the loop calling packAndSend: (start, comparison with the bound, bound = number of old neighbours, step +1) -/",
+            "def packLoop : LoopHdr := " + hdr["pack"],
+            "/-- header of the loop calling recvAndUnpack -/",
+            "def recvLoop : LoopHdr := " + hdr["recv"],
+            "/-- the branch conditions of insertIntoRemoteIndexList: advance while, insert if (not at end and), scan while, found if, insert unless found -/",
+            "def insertConds : InsertConds := " + _insert_conds(src),
+            "/-- what calculateMessageSizes adds to infoSend_[holder].publish / .pairs for every holder of an index -/",
+            "def sizeIncr : CountIncr := " + _size_incr(src),
+            "end DV.C13.Gen", ""]
     return [("DuneVerif/Gen/C13.lean", "\n".join(out))]
 
 
